@@ -647,7 +647,11 @@ class Gen:
             self.no_headers = True
             um = self.used_onmatch
             self.used_onmatch = True  # no look-ahead from inside a last() action (it would run on a blank final record too)
+            # nor does it read variables: a skip()/stop()/advance() may have kept every assignment from running before the last line
+            saved = (self.numvars, self.txtvars, self.anyvars)
+            self.numvars, self.txtvars, self.anyvars = [], [], []
             act = self.action()
+            self.numvars, self.txtvars, self.anyvars = saved
             self.used_onmatch = um
             self.no_headers = False
             act.pop("_defines", None)
